@@ -324,6 +324,18 @@ def dirnameC (cs : List Char) : List Char :=
 
 def dirname (p : String) : String := String.ofList (dirnameC p.toList)
 
+/-- `str.replace(pat, rep)` on characters for a non-empty `pat`: all non-overlapping occurrences, left to
+right; the counter says how many characters of a matched occurrence are still to be skipped -/
+def replaceGo (pat rep : List Char) : Nat → List Char → List Char
+  | _, [] => []
+  | skip + 1, _ :: cs => replaceGo pat rep skip cs
+  | 0, c :: cs =>
+    if pat.isPrefixOf (c :: cs) then rep ++ replaceGo pat rep (pat.length - 1) cs
+    else c :: replaceGo pat rep 0 cs
+
+/-- Python `s.replace(pat, rep)` (`pat` non-empty) -/
+def pyReplace (s pat rep : String) : String := String.ofList (replaceGo pat.toList rep.toList 0 s.toList)
+
 /-- all the ancestors `os.makedirs(p)` may have to create, `p` included -/
 def ancestors : Nat → String → List String
   | 0, _ => []
@@ -335,10 +347,14 @@ def FS.makedirs (fs : FS) (p : String) : FS :=
 
 /-! ## `ToCSV.run` (to_csv.py:248-337) -/
 
-/-- `data.rows()` exists and is callable -/
-def Data.hasRows : Data → Bool
-  | .rows _ _ _ => true
-  | _ => false
+/-- `data.rows()` exists and is callable: what it returns, and whether `data._update_context` adds to the
+context (a graph made by `HistToGraph` has no error fields: its `_update_context` does nothing) -/
+def Data.rowsInfo : Data → Option (RowsKind × Bool)
+  | .rows _ k upd => some (k, upd)
+  | .graph _ => some (.ok, false)
+  | _ => none
+
+def Data.hasRows (d : Data) : Bool := d.rowsInfo.isSome
 
 /-- `get_recursively(context, "output.to_csv", True)` is true -/
 def csvAllowed (d : Dict) : Bool :=
@@ -377,16 +393,18 @@ def toCSVStep {σ : Type} (s : σ) (v : Item) : Step σ Item :=
           ⟨[mk v 0 (.text "csv" v.tok) ⟨c.tok, d2⟩], s, none⟩
         else ⟨[], s, some .typeError⟩
       else pass s v          -- warning "not implemented"; `yield val`
-    | .rows _ k upd =>
-      -- `rows = iterable_to_table(...)` is a generator object: always truthy, `TypeError` cannot be
-      -- raised at its creation; it is raised, uncaught, when the lines are joined
-      match k with
-      | .notIterable => ⟨[], s, some .typeError⟩
-      | _ =>
-        let d1 := if upd then setKey c.d "value" (.opaque "value") else c.d
-        let d2 := updPath d1 ["output", "filetype"] (.str "csv")
-        ⟨[mk v 0 (.text "csv" v.tok) ⟨c.tok, d2⟩], s, none⟩
-    | _ => pass s v        -- `data.rows()` raised AttributeError: unknown type, `yield val`
+    | d =>
+      match d.rowsInfo with
+      | some (k, upd) =>
+        -- `rows = iterable_to_table(...)` is a generator object: always truthy, `TypeError` cannot be
+        -- raised at its creation; it is raised, uncaught, when the lines are joined
+        match k with
+        | .notIterable => ⟨[], s, some .typeError⟩
+        | _ =>
+          let d1 := if upd then setKey c.d "value" (.opaque "value") else c.d
+          let d2 := updPath d1 ["output", "filetype"] (.str "csv")
+          ⟨[mk v 0 (.text "csv" v.tok) ⟨c.tok, d2⟩], s, none⟩
+      | none => pass s v      -- `data.rows()` raised AttributeError: unknown type, `yield val`
 
 /-! ## `Write.run` (write.py:126-290) -/
 
@@ -419,8 +437,9 @@ def normalizePath (p : String) : Except Exc String :=
     if isAbs q then .error .assertionError else .ok q
   else .ok p
 
-/-- `_make_filename(outputc)`: `(filename, fileext, filepath)`; values that are not strings where
-the code concatenates them are outside the model -/
+/-- `_make_filename(outputc)`: `(filename, fileext, filepath)`.  A file name, extension or directory
+name that is not a string where the code concatenates it (`filename + "." + fileext`, `os.path.isabs`)
+raises `TypeError`; uninterpreted values are outside the model -/
 def makeFilename (cfg : WriteCfg) (outputc : Dict) : Except Exc (String × CV × String) :=
   let dirnameV := (lookup outputc "dirname").getD (.str "")
   let fileextV :=
@@ -437,7 +456,8 @@ def makeFilename (cfg : WriteCfg) (outputc : Dict) : Except Exc (String × CV ×
       if fileextV.truthy then
         match fileextV with
         | .str ext => .ok (filename ++ "." ++ ext)
-        | _ => .error .unmodelled
+        | .opaque _ => .error .unmodelled
+        | _ => .error .typeError
       else .ok filename
     match filepathR, dirnameV with
     | .error e, _ => .error e
@@ -448,8 +468,10 @@ def makeFilename (cfg : WriteCfg) (outputc : Dict) : Except Exc (String × CV ×
         match normalizePath filepath with
         | .error e => .error e
         | .ok fp' => .ok (filename, fileextV, join2 (join2 cfg.outdir dn') fp')
-    | .ok _, _ => .error .unmodelled
-  | .ok _ => .error .unmodelled
+    | .ok _, .opaque _ => .error .unmodelled
+    | .ok _, _ => .error .typeError
+  | .ok (.opaque _) => .error .unmodelled
+  | .ok _ => .error .typeError
 
 /-- the content `fil.write(data)` puts into a file -/
 def Data.content : Data → Content
@@ -569,7 +591,7 @@ def pngStep (cfg : PngCfg) (fs : FS) (v : Item) : Step FS Item :=
       let o1 := setKey outputc "filetype" (.str "png")
       match v.data with
       | .str pdfName =>
-        let base := pdfName.replace ".pdf" ""
+        let base := pyReplace pdfName ".pdf" ""
         let target := base ++ "." ++ cfg.format
         let changed := (lookup o1 "changed").getD (.bool false)
         if !fs.exists target || cfg.overwrite || changed.truthy then
@@ -658,6 +680,12 @@ def iterateBinsStep {σ : Type} (selectBins : BinKind → Bool) (s : σ) (v : It
 
 /-! ## `MapBins.run` (split_into_bins.py:201-270) -/
 
+/-- the kind of bin a data value makes -/
+def binKindOf : Data → BinKind
+  | .hist _ => .hist
+  | .seq _ _ => .vec
+  | _ => .num
+
 /-- what `copy.deepcopy(seq).run([cell])` does when iterated: yields `out`, then stops or raises -/
 abbrev CellRes := List Item × Option Exc
 
@@ -701,7 +729,11 @@ def mapBinsRounds {σ : Type} (v : Item) (h : HistD) (d : Dict) (res : List Cell
         | x :: _ => x.dict
         | [] => []
       let d' := if !binCtx.isEmpty then setKey d "value" (.opaque "value") else d
-      let y : Item := ⟨.made v.tok (2 * k), .hist ⟨0, h.dim, h.shape, .num⟩, some ⟨.made v.tok (2 * k + 1), d'⟩⟩
+      -- the new histogram holds the data parts of the results (`drop_bins_context=True`)
+      let kind : BinKind := match items with
+        | x :: _ => binKindOf x.data
+        | [] => .num
+      let y : Item := ⟨.made v.tok (2 * k), .hist ⟨0, h.dim, h.shape, kind⟩, some ⟨.made v.tok (2 * k + 1), d'⟩⟩
       mapBinsRounds v h d res s fuel (k + 1) (y :: acc)
 
 /-- the loop body of `MapBins.run`; `inner cell` = what the (deep-copied) sequence yields for `[cell]` -/
@@ -845,42 +877,59 @@ def poolSet (p : Proc) : List Proc → List Proc
   | [] => [p]
   | q :: qs => if q.key == p.key then p :: qs else q :: poolSet p qs
 
+/-- what `LaTeXToPDF.run` decides for a selected value -/
+inductive PdfDec where
+  | err (e : Exc)
+  /-- the pdf exists and is up to date: `(pdf, context)` is yielded at once -/
+  | skip (y : Item)
+  /-- a process is launched; its result will be `(key, ctx)` -/
+  | launch (key tex : String) (ctx : Ctx)
+
+/-- the body of the loop for a selected value (latex_to_pdf.py:151-181): it reads the file system only
+through `getmtime(pdf)`, `getmtime(tex)` and `exists(pdf)` -/
+def pdfDecide (overwrite : Bool) (fs : FS) (v : Item) : PdfDec :=
+  let c := v.ctxOr 0
+  match lookup c.d "output" with
+  | some (.dict outputc) =>
+    let o1 := setKey outputc "filetype" (.str "pdf")
+    match v.data with
+    | .str texName =>
+      let pdf := pyReplace texName ".tex" ".pdf"
+      let changedR : Except Exc Bool :=
+        match lookup o1 "changed" with
+        | some x => .ok x.truthy
+        | none =>
+          match fs.mtime pdf with
+          | none => .ok true
+          | some pt =>
+            match fs.mtime texName with
+            | none => .error .fileNotFoundError
+            | some tt => .ok (decide (tt > pt))
+      match changedR with
+      | .error e => .err e
+      | .ok changed =>
+        if !overwrite && fs.exists pdf && !changed then
+          let o2 := setKey o1 "changed" (.bool false)
+          .skip (mk v 0 (.str pdf) ⟨c.tok, setKey c.d "output" (.dict o2)⟩)
+        else
+          let o2 := setKey o1 "changed" (.bool true)
+          .launch pdf texName ⟨c.tok, setKey c.d "output" (.dict o2)⟩
+    | .text _ _ => .err .unmodelled
+    | _ => .err .attributeError                       -- `texfile_name.replace`
+  | _ => .err .unmodelled                              -- unreachable: `pdfSel` found `output.filetype`
+
 /-- the loop body of `LaTeXToPDF.run` -/
 def pdfStep (overwrite : Bool) (sch : Sched) (st : PdfSt) (v : Item) : Step PdfSt Emit :=
   let (pool1, popped, fs1) := popReturned sch st.iter st.fs st.pool
   let st1 : PdfSt := { st with fs := fs1, pool := pool1, iter := st.iter + 1 }
   if !pdfSel v then ⟨popped ++ [.pass v], st1, none⟩
   else
-    let c := v.ctxOr 0
-    match lookup c.d "output" with
-    | some (.dict outputc) =>
-      let o1 := setKey outputc "filetype" (.str "pdf")
-      match v.data with
-      | .str texName =>
-        let pdf := texName.replace ".tex" ".pdf"
-        let changedR : Except Exc Bool :=
-          match lookup o1 "changed" with
-          | some x => .ok x.truthy
-          | none =>
-            match fs1.mtime pdf with
-            | none => .ok true
-            | some pt =>
-              match fs1.mtime texName with
-              | none => .error .fileNotFoundError
-              | some tt => .ok (decide (tt > pt))
-        match changedR with
-        | .error e => ⟨popped, st1, some e⟩
-        | .ok changed =>
-          if !overwrite && fs1.exists pdf && !changed then
-            let o2 := setKey o1 "changed" (.bool false)
-            ⟨popped ++ [.prod (mk v 0 (.str pdf) ⟨c.tok, setKey c.d "output" (.dict o2)⟩)], st1, none⟩
-          else
-            let o2 := setKey o1 "changed" (.bool true)
-            let p : Proc := ⟨pdf, st1.launched, texName, ⟨c.tok, setKey c.d "output" (.dict o2)⟩, v.tok⟩
-            ⟨popped, { st1 with pool := poolSet p st1.pool, launched := st1.launched + 1 }, none⟩
-      | .text _ _ => ⟨popped, st1, some .unmodelled⟩
-      | _ => ⟨popped, st1, some .attributeError⟩       -- `texfile_name.replace`
-    | _ => ⟨popped, st1, some .unmodelled⟩              -- unreachable: `pdfSel` found `output.filetype`
+    match pdfDecide overwrite fs1 v with
+    | .err e => ⟨popped, st1, some e⟩
+    | .skip y => ⟨popped ++ [.prod y], st1, none⟩
+    | .launch key tex ctx =>
+      ⟨popped, { st1 with pool := poolSet ⟨key, st1.launched, tex, ctx, v.tok⟩ st1.pool,
+                          launched := st1.launched + 1 }, none⟩
 
 /-- after the flow: `process.communicate()` for every process still in the pool, in pool order -/
 def pdfDrain (sch : Sched) : FS → List Proc → (List Emit × FS)
@@ -909,6 +958,35 @@ def pdfRun (overwrite : Bool) (sch : Sched) (fs : FS) (xs : List Item) : PdfRun 
 
 def PdfRun.out (r : PdfRun) : List Emit := r.blocks.flatten ++ r.tail
 
+/-! ## Pipelines: `Sequence(E1, E2, …)` of per-value loops
+
+Generators are demand-driven: `E2` consumes every value `E1` yields while `E1` processes one input value,
+before `E1` pulls the next one.  All modelled elements finish the side effects of a step before its first
+`yield`, so at the granularity of blocks the composite is again a loop `for val in flow: <body>`. -/
+
+/-- the body of the composite loop: `E1` processes `v`, `E2` processes what `E1` yielded; an exception of
+`E2` ends the run at once, an exception of `E1` after `E2` has consumed what `E1` yielded before it -/
+def pipeStep {σ : Type} (f1 f2 : σ → Item → Step σ Item) (s : σ) (v : Item) : Step σ Item :=
+  let r1 := f1 s v
+  let r2 := loop f2 r1.st r1.out
+  match r2.err with
+  | some e => ⟨r2.out, r2.st, some e⟩
+  | none => ⟨r2.out, r2.st, r1.err⟩
+
+/-- the empty pipeline yields every value as it is -/
+def idStep {σ : Type} (s : σ) (v : Item) : Step σ Item := pass s v
+
+/-- `Sequence(E1, …, En)` -/
+def pipeAll {σ : Type} : List (σ → Item → Step σ Item) → σ → Item → Step σ Item
+  | [] => idStep
+  | f :: fs => pipeStep f (pipeAll fs)
+
+/-- an element that only knows the file system, run in a world with more state -/
+def liftFS {ω : Type} (get : ω → FS) (set : ω → FS → ω) (f : FS → Item → Step FS Item) (w : ω) (v : Item) :
+    Step ω Item :=
+  let r := f (get w) v
+  ⟨r.out, set w r.st, r.err⟩
+
 /-! ## the elements as loops -/
 
 def toCSVRun {σ : Type} : σ → List Item → Run σ Item := loop toCSVStep
@@ -923,5 +1001,6 @@ def runIfRun {σ : Type} (select : Item → Bool) (inner : σ → List Item → 
     σ → List Item → Run σ Item := loop (runIfStep select inner)
 def mapGroupRun {σ : Type} (inner : σ → List Item → Step σ Item) : σ → List Item → Run σ Item :=
   loop (mapGroupStep inner)
+def pipeRun {σ : Type} (fs : List (σ → Item → Step σ Item)) : σ → List Item → Run σ Item := loop (pipeAll fs)
 
 end Lena.C10
